@@ -7,6 +7,9 @@ from .. import lib, absiter
 from .version import base_summaries
 
 
+LABEL = 'a forward scan that runs into an unreadable data block ends as if the table ended there: no call reports an error and the entries behind the block are never seen'
+
+
 def o15_7_scan_into_unreadable_block(mir, tier):
     """Tables with data blocks of the given shapes; data block `bad` >= 1 cannot be read (Table::get_block_reader fails).  The scan
     is seek_to_first followed by next until the cursor is invalid.  Reference (C15: an affected scan fails with an error): if the
@@ -58,9 +61,9 @@ def o15_7_scan_into_unreadable_block(mir, tier):
                     if not valid or seen >= total + 1:
                         ex.paths += 1; res.checked += 1
                         res.cases['%s bad=%d: %d of %d entries seen, errors reported: %d' % (shape, bad, seen, total, errors)] = 1
-                        ex.record_formula('a forward scan that runs into an unreadable data block ends as if the table ended there', pc2, BoolVal(seen < total and errors == 0))
+                        ex.record_formula(LABEL, pc2, BoolVal(seen < total and errors == 0))
                         if seen < total and errors == 0:
-                            res.violations.append({'label': 'a forward scan that runs into an unreadable data block ends as if the table ended there: no call reports an error and the entries behind the block are never seen',
+                            res.violations.append({'label': LABEL,
                                                    'shape': list(shape), 'bad_block': bad, 'seen': seen, 'total': total, 'replay': argv(ex, pc2)})
                         return
                     ex.run_fn(ops['next'], [Ref('$it')], env2, pc2, lambda r, e3, p3: step(seen + 1, errors, e3, p3))
